@@ -1239,7 +1239,7 @@ func binDeterminism(o corrOpts, sum *res.Summary, r *rng.R, bin string) {
 			}
 		}
 	}
-	// import-order stress: eight small packages that each import a package with very large facts BEFORE a small
+	// import-order stress: sixteen small packages that each import a package with very large facts BEFORE a small
 	// annotated one (import declarations not in path order), carry an @implements annotation and violate the small
 	// package's annotations. All five checkers of a package walk its import list at the same time; the sequential run
 	// is the reference for repeated parallel runs.
@@ -1258,7 +1258,7 @@ func binDeterminism(o corrOpts, sum *res.Summary, r *rng.R, bin string) {
 		os.MkdirAll(filepath.Join(sdir, "zlib"), 0o755)
 		os.WriteFile(filepath.Join(sdir, "zlib", "zlib.go"), []byte(z.String()), 0o644)
 		var spats []string
-		for n := 1; n <= 8; n++ {
+		for n := 1; n <= 16; n++ {
 			app := fmt.Sprintf("package app%d\n\nimport (\n\t\"exp/zlib\"\n\n\t\"exp/alib\"\n)\n\n// @implements alib.Doer\ntype Job struct{ r *zlib.R%d }\n\nfunc (Job) Do() {}\n\nfunc Run() {\n\tt := alib.New()\n\tt.N = %d\n\tt.Hits++\n\t_ = alib.T{}\n\t_ = alib.Mock()\n\talib.Internal()\n\t_ = zlib.R%d{}\n}\n", n, n, n, n)
 			os.MkdirAll(filepath.Join(sdir, fmt.Sprintf("app%d", n)), 0o755)
 			os.WriteFile(filepath.Join(sdir, fmt.Sprintf("app%d", n), "app.go"), []byte(app), 0o644)
@@ -1267,9 +1267,9 @@ func binDeterminism(o corrOpts, sum *res.Summary, r *rng.R, bin string) {
 		seq := runStandalone(bin, sdir, []string{"-debug=p"}, nil, spats...)
 		seqN := norm(seq)
 		sum.AddN("import-order-stress-diagnostics", len(seq.diags))
-		k := 10
+		k := 24
 		if o.tier == "thorough" {
-			k = 40
+			k = 80
 		}
 		for i := 0; i < k; i++ {
 			par := runStandalone(bin, sdir, nil, nil, spats...)
